@@ -308,6 +308,12 @@ def evaluate_sequential(case, runner):
             break
     findings.extend(check_clock_monotone(H))
     findings.extend(check_requests(H, ref))
+    for h in H:
+        if h[0] == "nested" and h[3]:
+            findings.append(("nested-simulator", "a second simulator run from %s of the first "
+                             "one: %s" % ("construct_model" if h[1] is None else
+                                          "handler %s" % h[1], h[3])))
+            break
     # commands issued from handlers
     cbs = [c for c in cmds if c["callback"]]
     for k, (c, e) in enumerate(zip(cbs, ref.callback_cmds)):
